@@ -27,7 +27,10 @@ Section Checkpoint.
 
   (* a declared height must be the parent's plus one whenever the parent is stored *)
   Definition position_ok (b : block) (s : cstate) : Prop :=
-    forall prev, cs_blocks s !! b_prev b = Some prev -> b_height b = b_height prev + 1.
+    match cs_blocks s !! b_prev b with
+    | Some prev => b_height b = b_height prev + 1
+    | None => b_height b = 0              (* no stored parent: only a genesis block *)
+    end.
 
   (* the whole function, at or below the horizon: the position check, then the table comparison *)
   Lemma v_block_in_state_below (b : block) (s : cstate) :
@@ -35,7 +38,7 @@ Section Checkpoint.
     v_block_in_state sha scrypt blake verify P b s =
       (do _ <- match cs_blocks s !! b_prev b with
                | Some prev => check (b_height b =? b_height prev + 1) EValidation
-               | None => Ok tt
+               | None => check (b_height b =? 0) EValidation
                end;
        match known_hash (p_known P) (b_height b) with
        | Some kh => check (bytes_eqb (block_id sha b) kh) EValidation
@@ -50,21 +53,21 @@ Section Checkpoint.
     position_ok b s ->
     match cs_blocks s !! b_prev b with
     | Some prev => check (b_height b =? b_height prev + 1) EValidation
-    | None => Ok tt
+    | None => check (b_height b =? 0) EValidation
     end = Ok tt.
   Proof.
-    intros Hp. destruct (cs_blocks s !! b_prev b) as [prev|] eqn:E; [|done].
-    apply check_ok. apply N.eqb_eq. by apply Hp.
+    unfold position_ok. intros Hp. destruct (cs_blocks s !! b_prev b) as [prev|] eqn:E;
+      apply check_ok; apply N.eqb_eq; exact Hp.
   Qed.
 
   Lemma position_check_inv (b : block) (s : cstate) (r : res unit) :
     (do _ <- match cs_blocks s !! b_prev b with
              | Some prev => check (b_height b =? b_height prev + 1) EValidation
-             | None => Ok tt
+             | None => check (b_height b =? 0) EValidation
              end; r) = Ok tt -> position_ok b s /\ r = Ok tt.
   Proof.
     intros H. apply bind_ok in H as [[] [H1 H2]]. split; [|done].
-    intros prev Hprev. rewrite Hprev in H1. apply check_ok in H1. by apply N.eqb_eq in H1.
+    unfold position_ok. destruct (cs_blocks s !! b_prev b) as [prev|]; apply check_ok in H1; by apply N.eqb_eq in H1.
   Qed.
 
   Theorem checkpoint_enforced (b : block) (s : cstate) (kh : bytes) :
@@ -99,7 +102,8 @@ Section Checkpoint.
     destruct (cs_blocks s !! b_prev b) as [prev|]; cbn.
     - destruct (b_height b =? b_height prev + 1); cbn; [|done].
       destruct (bytes_eqb (block_id sha b) kh) eqn:E; [|done]. by apply HeaderProofs.bytes_eqb_eq in E.
-    - destruct (bytes_eqb (block_id sha b) kh) eqn:E; [|done]. by apply HeaderProofs.bytes_eqb_eq in E.
+    - destruct (b_height b =? 0); cbn; [|done].
+      destruct (bytes_eqb (block_id sha b) kh) eqn:E; [|done]. by apply HeaderProofs.bytes_eqb_eq in E.
   Qed.
 
   (* at a position at or below the horizon whose height is not in the table, nothing ELSE is validated in-state: no
@@ -125,6 +129,17 @@ Section Checkpoint.
     destruct (N.eqb_spec (b_height b) (b_height prev + 1)) as [E|E]; [done|]. done.
   Qed.
 
+  (* ... and so is a block without a stored parent, unless it declares height 0 *)
+  Theorem parentless_nonzero_height_rejected (b : block) (s : cstate) :
+    cs_blocks s !! b_prev b = None -> b_height b <> 0 ->
+    v_block_in_state sha scrypt blake verify P b s = Err EValidation.
+  Proof.
+    intros Hprev Hne. unfold v_block_in_state.
+    destruct (Z.of_N (b_height b) <=? p_hz P)%Z eqn:E.
+    - rewrite Hprev. destruct (N.eqb_spec (b_height b) 0) as [E0|E0]; [done|]. done.
+    - unfold v_summary_in_state. change (s_prev (h_summary (b_header b))) with (b_prev b). rewrite Hprev. done.
+  Qed.
+
   (* the in-state verdict, on either side of the horizon: an accepted block's height is its parent's plus one *)
   Theorem accepted_height_is_position (b : block) (s : cstate) (prev : block) :
     v_block_in_state sha scrypt blake verify P b s = Ok tt ->
@@ -132,7 +147,7 @@ Section Checkpoint.
   Proof.
     intros Hok Hprev. unfold v_block_in_state in Hok.
     destruct (Z.of_N (b_height b) <=? p_hz P)%Z eqn:E.
-    - apply position_check_inv in Hok as [Hp _]. by apply Hp.
+    - apply position_check_inv in Hok as [Hp _]. unfold position_ok in Hp. by rewrite Hprev in Hp.
     - apply bind_ok in Hok as [[] [_ Hok]]. apply bind_ok in Hok as [ev [_ Hok]].
       apply bind_ok in Hok as [[] [_ Hok]]. destruct (b_txs b) as [|cb rest]; [done|].
       apply bind_ok in Hok as [[] [Hcb _]]. unfold v_cb_in_state in Hcb.
